@@ -132,6 +132,24 @@ Definition set_file_mode (s : mst) (name : str) (mode : Z) : mst * res :=
   | Some f => (upd_node s f (with_mode mode), ROk)
   end.
 
+(* lockfreeBelowFile (memmap.go): walk up with filepath.Dir from the directory of the name to the
+   nearest ancestor that exists (lockfreeOpen normalises: "." and ".." are the root); true iff that
+   ancestor is a regular file.  The Go loop ends at the fixed point of filepath.Dir ("/" or ".");
+   every other step shortens the string, so the fuel given by below_file is never used up.
+   Switch memfs_refuses_below_file (Gen/Consts.v, from the AST of memmap.go): 1 iff Create, Mkdir,
+   Rename and the creating path of OpenFile make this check and answer ENOTDIR; 0 = the code
+   before that repair, which created the entry and let registerWithParent turn the regular file
+   into a directory. *)
+Fixpoint below_file_walk (fuel : nat) (s : mst) (dir : str) : bool :=
+  match lockfree_open s dir with
+  | Some f => match get_node s f with Some n => negb (ndir n) | None => false end
+  | None =>
+    if beqb dir (path_dir dir) then false
+    else match fuel with O => false | S fu => below_file_walk fu s (path_dir dir) end
+  end.
+Definition below_file (s : mst) (name : str) : bool :=
+  (memfs_refuses_below_file =? 1) && below_file_walk (S (length name)) s (path_dir name).
+
 Definition m_create_node (s : mst) (name : str) : mst * nat :=
   let '(s1, f) := alloc_node s (new_file name (mclock s)) in
   let s2 := set_data s1 (alist_set name f (mdata s1)) in
@@ -144,13 +162,18 @@ Definition m_create (s : mst) (name0 : str) : mst * res :=
     | Some f => match get_node s f with Some n => if ndir n then None else Some f | None => None end
     | None => None
     end in
-  let '(s1, f) :=
+  (* None = ENOTDIR: the name is free (or a directory) and lies below a regular file *)
+  let pre : option (mst * nat) :=
     match existing_file with
-    | Some f => (upd_node s f (fun n => with_mtime (mclock s) (with_data [] n)), f)   (* truncate in place *)
-    | None => m_create_node s name
+    | Some f => Some (upd_node s f (fun n => with_mtime (mclock s) (with_data [] n)), f)   (* truncate in place *)
+    | None => if below_file s name then None else Some (m_create_node s name)
     end in
-  let '(s2, h) := alloc_handle s1 (mkH f 0 0 false false) in
-  (s2, RHandle h).
+  match pre with
+  | None => (s, RErr (EW KENOTDIR))
+  | Some (s1, f) =>
+    let '(s2, h) := alloc_handle s1 (mkH f 0 0 false false) in
+    (s2, RHandle h)
+  end.
 
 Definition m_mkdir (s : mst) (name0 : str) (perm0 : Z) : mst * res :=
   let perm := Z.land perm0 chmod_bits in
@@ -158,6 +181,7 @@ Definition m_mkdir (s : mst) (name0 : str) (perm0 : Z) : mst * res :=
   match lookup s name with
   | Some _ => (s, RErr (EW KExist))
   | None =>
+    if below_file s name then (s, RErr (EW KENOTDIR)) else
     let '(s1, item) := alloc_node s (with_mode (Z.lor mode_dir perm) (new_dir name (mclock s))) in
     let s2 := set_data s1 (alist_set name item (mdata s1)) in
     let s3 := reg s2 item perm in
@@ -182,18 +206,19 @@ Definition m_openfile (s : mst) (name0 : str) (flag perm0 : Z) : mst * res :=
   let perm := Z.land perm0 chmod_bits in
   let name := normalize_path name0 in
   let existing := lookup s name in
-  (* Some (state, file, created) or None = EEXIST *)
-  let pre : option (mst * option nat * bool) :=
+  (* inr (state, file, created) or inl = the error of openOrCreate (EEXIST, ENOTDIR) *)
+  let pre : errk + (mst * option nat * bool) :=
     match existing with
-    | Some _ => if flag_has flag o_excl && flag_has flag o_create then None else Some (s, existing, false)
+    | Some _ => if flag_has flag o_excl && flag_has flag o_create then inl KExist else inr (s, existing, false)
     | None => if flag_has flag o_create
-              then let '(s1, f) := m_create_node s name in Some (s1, Some f, true)
-              else Some (s, None, false)
+              then if below_file s name then inl KENOTDIR
+                   else let '(s1, f) := m_create_node s name in inr (s1, Some f, true)
+              else inr (s, None, false)
     end in
   match pre with
-  | None => (s, RErr (EW KExist))
-  | Some (_, None, _) => (s, RErr (EW KNotExist))
-  | Some (s1, Some f, created) =>
+  | inl k => (s, RErr (EW k))
+  | inr (_, None, _) => (s, RErr (EW KNotExist))
+  | inr (s1, Some f, created) =>
     let ro := Z.eqb (Z.land flag memfs_access_mask) 0 in
     let data := match get_node s1 f with Some n => ndata n | None => [] end in
     let at_ := if flag_has flag o_append then zlen data else 0 in
@@ -271,6 +296,7 @@ Definition m_rename (s : mst) (old0 new0 : str) : mst * res :=
   | None => (s, RErr (EW KNotExist))
   | Some f =>
     if beqb old new then (s, ROk) else
+    if below_file s new then (s, RErr (EW KENOTDIR)) else
     match unregister s old with
     | None => (s, RPanic)
     | Some (s1, false) => (s1, RErr (E KNotExist))
